@@ -509,9 +509,19 @@ class Program:
             for st in body:
                 if isinstance(st, (ast.FunctionDef, ast.AsyncFunctionDef)):
                     q = f'{scope_qual}.{st.name}'
+                    # (the setter / deleter of a property has the getter's name: it is indexed beside it, not over it)
+                    accessor = next((d.attr for d in st.decorator_list if isinstance(d, ast.Attribute) and d.attr in ('setter', 'deleter')
+                                     and isinstance(d.value, ast.Name) and d.value.id == st.name), None)
+                    if accessor is not None:
+                        q = f'{q}.{accessor}'
                     fi = FuncInfo(m, q, st, cls=cls, parent=parent_func)
                     self.functions[q] = fi
                     self.by_node[id(st)] = fi
+                    if accessor is not None:
+                        if cls is not None and parent_func is None:
+                            cls.methods[f'{st.name}.{accessor}'] = fi
+                        index_nested(st, q + '.<locals>', fi)
+                        continue
                     if cls is not None and parent_func is None:
                         cls.methods[st.name] = fi
                     elif toplevel:
